@@ -5,7 +5,8 @@ P=$1; shift
 cd /repo || exit 2
 if ! git diff --quiet; then echo "/repo is dirty"; exit 2; fi
 if ! git apply "$P" 2>/dev/null; then
-  if ! git apply --3way "$P" 2>/tmp/apply.err; then echo "patch does not apply"; cat /tmp/apply.err; git checkout -- . ; exit 3; fi
+  # a failed 3-way apply leaves unmerged paths: restore index and tree from HEAD (the tree was clean)
+  if ! git apply --3way "$P" 2>/tmp/apply.err; then echo "patch does not apply"; cat /tmp/apply.err; git reset -q --hard HEAD; exit 3; fi
   git reset -q
 fi
 # evidence written by a run against a patched tree must not replace the committed evidence
